@@ -183,13 +183,27 @@ def _shannon(tt_i: list[int], n: int, names: list[str], rng: random.Random, fixe
     return f"(({x} & {hi}) | (!{x} & {lo}))"
 
 
+def free_input_candidates(tt: list[list[int]]) -> list[int]:
+    """identity variables that are regulators of another variable: can be written as free inputs (no rule)"""
+    n = len(tt)
+    out = []
+    for i in range(n):
+        if all(tt[i][s] == bit(s, i) for s in range(1 << n)):
+            if any(i in support(tt[j], n) for j in range(n) if j != i):
+                out.append(i)
+    return out
+
+
 def render_bnet(tt: list[list[int]], names: list[str] | None = None, style: str = "dnf",
-                rng: random.Random | None = None, order: list[int] | None = None) -> str:
+                rng: random.Random | None = None, order: list[int] | None = None, free_inputs: bool = False) -> str:
     n = len(tt)
     names = names or names_for(n)
     rng = rng or random.Random(0)
     lines = []
+    skip = set(free_input_candidates(tt)) if free_inputs else set()
     for i in (order if order is not None else range(n)):
+        if i in skip:
+            continue    # a variable without a rule is a free input (identity dynamics)
         if style == "dnf":
             e = _minterm_dnf(tt[i], n, names)
         else:
